@@ -1,3 +1,4 @@
+import Just.Generated.Tables
 /-
 Model of justfile discovery and fallback: `Search::justfile` / `find_in_directory` /
 `search_parent_directory` (src/search.rs) and the fallback loop of `Subcommand::run`
@@ -9,10 +10,11 @@ namespace Just.Search
 
 def lower (c : Char) : Char := if 'A' ≤ c ∧ c ≤ 'Z' then Char.ofNat (c.toNat + 32) else c
 
-/-- `name.eq_ignore_ascii_case("justfile") || …(".justfile")` -/
+/-- `JUSTFILE_NAMES.iter().any(|n| name.eq_ignore_ascii_case(n))`; the names are read from
+src/search.rs on every run (`Generated.justfileNames`) -/
 def isCandidate (name : String) : Bool :=
   let l := name.toList.map lower
-  l = "justfile".toList || l = ".justfile".toList
+  Generated.justfileNames.any (fun n => l = n.toList.map lower)
 
 structure Level where
   entries : List String      -- names in this directory (distinct)
